@@ -13,13 +13,25 @@
    (sign, significant digits, power of ten): no floating point, no big integers. *)
 EXTENDS Integers, Sequences, Text, Utf8
 
-(* =====================================================================================
+(* ========\* does the descriptor contain a NaN or an infinity?
+RECURSIVE DescNonFinite(_)
+DescNonFinite(d) ==
+  CASE d.k = "float" -> d.txt \in {txtNaN, txtPInf, txtNInf}
+    [] d.k = "ptr" -> d.nil = 0 /\ DescNonFinite(d.v)
+    [] d.k \in {"slice", "array"} -> \E x \in 1..Len(d.kids) : DescNonFinite(d.kids[x])
+    [] d.k = "map" -> \E x \in 1..Len(d.ents) : DescNonFinite(d.ents[x].v)
+    [] d.k = "struct" -> \E x \in 1..Len(d.fields) : DescNonFinite(d.fields[x].v)
+    [] OTHER -> FALSE
+=============================================================================
    Abstract values.  Every value is a record with the SAME five fields, so TLC's equality
    never compares values of different shapes:
      t : tag     n : sign / boolean     s : byte or digit sequence     e : exponent / code
      k : children (for "obj": <<VStr(key1), val1, VStr(key2), val2, ...>> in source order)
    ===================================================================================== *)
 V(t, n, s, e, k) == [t |-> t, n |-> n, s |-> s, e |-> e, k |-> k]
+\* TLC evaluates [x \in 1..n |-> e] lazily and re-evaluates e at every application: nested, that is
+\* exponential.  Tup forces it once into an explicit tuple.
+Tup(f) == f \o <<>>
 VNull         == V("null", 0, <<>>, 0, <<>>)
 VBool(b)      == V("bool", b, <<>>, 0, <<>>)                 \* b in {0, 1}
 VNum(neg, ds, e10) == V("num", neg, ds, e10, <<>>)           \* (-1)^neg * ds * 10^e10; ds has no leading/trailing 0; zero = <<>>,0,0
@@ -48,7 +60,7 @@ NumNF(neg, ip, fp, ex) ==
   ELSE LET b == VLLastNZ(D, Len(D)) IN VNum(neg, SubSeq(D, a, b), ex - Len(fp) + (Len(D) - b))
 VLNat(t, i, j, acc) == IF i > j THEN acc ELSE VLNat(t, i + 1, j, acc * 10 + (t[i] - 48))   \* caller bounds j - i
 VLDigitsEnd(t, i) == IF i <= Len(t) /\ IsDigit(t[i]) THEN VLDigitsEnd(t, i + 1) ELSE i      \* first non-digit index
-DigitVals(t, a, b) == [x \in 1..(b - a + 1) |-> t[a + x - 1] - 48]
+DigitVals(t, a, b) == Tup([x \in 1..(b - a + 1) |-> t[a + x - 1] - 48])
 IsIdStart(c) == IsAlpha(c) \/ c = 95 \/ c = 36 \/ c >= 128
 IsIdPart(c) == IsIdStart(c) \/ IsDigit(c)
 
@@ -364,14 +376,23 @@ SortFrom(ps, i, acc) == IF i > Len(ps) THEN acc ELSE SortFrom(ps, i + 1, InsertP
 SortPairs(ps) == SortFrom(ps, 1, <<>>)
 PairsOf(k, i) == IF i > Len(k) THEN <<>> ELSE <<<<k[i].s, k[i + 1]>>>> \o PairsOf(k, i + 2)
 UnPairs(ps, i) == IF i > Len(ps) THEN <<>> ELSE <<VStr(ps[i][1]), ps[i][2]>> \o UnPairs(ps, i + 1)
-Canon(v) == IF v.t = "arr" THEN VArr([x \in 1..Len(v.k) |-> Canon(v.k[x])])
-            ELSE IF v.t = "obj" THEN VObj(UnPairs(SortPairs(PairsOf([x \in 1..Len(v.k) |-> IF x % 2 = 1 THEN v.k[x] ELSE Canon(v.k[x])], 1)), 1))
+Canon(v) == IF v.t = "arr" THEN VArr(Tup([x \in 1..Len(v.k) |-> Canon(v.k[x])]))
+            ELSE IF v.t = "obj" THEN VObj(UnPairs(SortPairs(PairsOf(Tup([x \in 1..Len(v.k) |-> IF x % 2 = 1 THEN v.k[x] ELSE Canon(v.k[x])]), 1)), 1))
             ELSE v
 HasNonFinite(v) == v.t = "nonfinite" \/ \E x \in 1..Len(v.k) : HasNonFinite(v.k[x])
 KeysAscending(k) == \A x \in 1..(Len(k) \div 2 - 1) : Less(k[2 * x - 1].s, k[2 * x + 1].s)
 HasDupKey(k) == \E x, y \in 1..(Len(k) \div 2) : x < y /\ k[2 * x - 1].s = k[2 * y - 1].s
 
-(* =====================================================================================
+(* ========\* does the descriptor contain a NaN or an infinity?
+RECURSIVE DescNonFinite(_)
+DescNonFinite(d) ==
+  CASE d.k = "float" -> d.txt \in {txtNaN, txtPInf, txtNInf}
+    [] d.k = "ptr" -> d.nil = 0 /\ DescNonFinite(d.v)
+    [] d.k \in {"slice", "array"} -> \E x \in 1..Len(d.kids) : DescNonFinite(d.kids[x])
+    [] d.k = "map" -> \E x \in 1..Len(d.ents) : DescNonFinite(d.ents[x].v)
+    [] d.k = "struct" -> \E x \in 1..Len(d.fields) : DescNonFinite(d.fields[x].v)
+    [] OTHER -> FALSE
+=============================================================================
    Descriptors (what the driver builds by reflection) and Abs: the data encoding/json assigns.
      [k |-> "nil"]                                   untyped nil (nil interface)
      [k |-> "bool", b |-> 0|1]
@@ -479,12 +500,12 @@ Abs(d, L, o) ==
     [] d.k = "ptr" -> IF d.nil = 1 THEN VNull ELSE Abs(d.v, L, o)
     [] d.k \in {"slice", "array"} ->
          IF d.k = "slice" /\ d.nil = 1 THEN VNull
-         ELSE LET ks == [x \in 1..Len(d.kids) |-> Abs(d.kids[x], L, o)] IN IF AnyBad(ks) THEN BadU ELSE VArr(ks)
+         ELSE LET ks == Tup([x \in 1..Len(d.kids) |-> Abs(d.kids[x], L, o)]) IN IF AnyBad(ks) THEN BadU ELSE VArr(ks)
     [] d.k = "map" ->
          IF d.nil = 1 THEN VNull
          ELSE IF d.kk = "bool" /\ L = "json" THEN BadU                  \* encoding/json: unsupported type
          ELSE IF d.kk = "int" /\ \E x \in 1..Len(d.ents) : ~IntKeyOK(d.ents[x].key) THEN BadU
-         ELSE LET ps == SortPairs([x \in 1..Len(d.ents) |-> <<d.ents[x].key, Abs(d.ents[x].v, L, o)>>])
+         ELSE LET ps == SortPairs(Tup([x \in 1..Len(d.ents) |-> <<d.ents[x].key, Abs(d.ents[x].v, L, o)>>]))
                   ks == UnPairs(ps, 1) IN
               IF AnyBad(ks) \/ HasDupKey(ks) \/ \E x \in 1..Len(d.ents) : ~Valid(d.ents[x].key) THEN BadU ELSE VObj(ks)
     [] d.k = "struct" -> LET ks == AbsMembers(d.fields, 1, L, o) IN
@@ -506,7 +527,16 @@ MapOrderOk(d, p, o) ==
            ELSE MapOrderOk(f.v, Lookup(p.k, IF TagNameOK(parts[1]) THEN parts[1] ELSE f.name, 1), o)
     [] OTHER -> TRUE
 
-(* =====================================================================================
+(* ========\* does the descriptor contain a NaN or an infinity?
+RECURSIVE DescNonFinite(_)
+DescNonFinite(d) ==
+  CASE d.k = "float" -> d.txt \in {txtNaN, txtPInf, txtNInf}
+    [] d.k = "ptr" -> d.nil = 0 /\ DescNonFinite(d.v)
+    [] d.k \in {"slice", "array"} -> \E x \in 1..Len(d.kids) : DescNonFinite(d.kids[x])
+    [] d.k = "map" -> \E x \in 1..Len(d.ents) : DescNonFinite(d.ents[x].v)
+    [] d.k = "struct" -> \E x \in 1..Len(d.fields) : DescNonFinite(d.fields[x].v)
+    [] OTHER -> FALSE
+=============================================================================
    The property-level verdict on one observation
      r = [id, ctx, desc, st \in {"ok", "builderr", "runerr", "hostpanic"}, out]
    "ok" and the "skip_*" verdicts are not failures; everything else is a cause of violation.
@@ -524,7 +554,11 @@ JsReadings == <<Strict, Opt("empty", "flat", "nano", "exact"), Opt("null", "nest
 \* showTimeInJS as found prints the offsets -00:59..-00:01 with a '+' sign: only to name that cause
 JsSignLost == <<Opt("null", "flat", "nano", "signlost"), Opt("empty", "flat", "nano", "signlost"),
                 Opt("null", "nest", "nano", "signlost"), Opt("empty", "nest", "nano", "signlost")>>
-Matches(d, L, o, cp) == LET a == Abs(d, L, o) IN ~IsBad(a) /\ Canon(a) = cp
+\* data equality; exact equality first (the common case), objects as member sets otherwise
+Same(a, P) == a = P \/ Canon(a) = Canon(P)
+Matches(d, L, o, P) == LET a == Abs(d, L, o) IN ~IsBad(a) /\ Same(a, P)
+RECURSIVE FirstHit(_, _, _, _, _)
+FirstHit(os, x, d, L, P) == IF x > Len(os) THEN 0 ELSE IF Matches(d, L, os[x], P) THEN x ELSE FirstHit(os, x + 1, d, L, P)
 Verdict(r) ==
   LET L == Lang(r.ctx)  d == r.desc  A == Abs(d, L, Strict) IN
   IF r.st = "builderr" THEN "skip_not_accepted"                 \* the type is not accepted for the context: outside the property
@@ -537,21 +571,28 @@ Verdict(r) ==
   ELSE IF IsBad(P) THEN (IF HasNonFinite(A) THEN "non-finite-float"
                          ELSE IF P.t = "unbound" THEN "unbound-identifier" ELSE "not-a-literal")
   ELSE IF L = "json" /\ HasNonFinite(A) THEN "ok"               \* no JSON value exists for it: any valid JSON is accepted
-  ELSE
-  LET cp == Canon(P) IN
-  IF L = "json" THEN
-       IF cp = Canon(A) THEN "ok"
-       ELSE LET hits == SelectSeq(Relaxations, LAMBDA o : Matches(d, L, o, cp)) IN
-            IF Len(hits) > 0 THEN RelaxName(hits[1]) ELSE "different-data"
-  ELSE LET hits == SelectSeq(JsReadings, LAMBDA o : Matches(d, L, o, cp)) IN
-       IF Len(hits) = 0
+  ELSE IF L = "json" THEN
+       IF Same(A, P) THEN "ok"
+       ELSE LET h == FirstHit(Relaxations, 1, d, L, P) IN
+            IF h > 0 THEN RelaxName(Relaxations[h]) ELSE "different-data"
+  ELSE LET h == IF Same(A, P) THEN 1 ELSE FirstHit(JsReadings, 2, d, L, P) IN
+       IF h = 0
        THEN (IF HasNonFinite(A) THEN "non-finite-float"
-             ELSE IF \E x \in 1..Len(JsSignLost) : Matches(d, L, JsSignLost[x], cp) THEN "js-date-negative-subhour-offset"
+             ELSE IF FirstHit(JsSignLost, 1, d, L, P) > 0 THEN "js-date-negative-subhour-offset"
              ELSE "different-data")
-       ELSE IF MapOrderOk(d, P, hits[1]) THEN "ok" ELSE "map-keys-not-sorted"
+       ELSE IF MapOrderOk(d, P, JsReadings[h]) THEN "ok" ELSE "map-keys-not-sorted"
 IsSkip(v) == v \in {"skip_not_accepted", "skip_ref_undefined", "skip_out_undefined"}
 
-(* =====================================================================================
+(* ========\* does the descriptor contain a NaN or an infinity?
+RECURSIVE DescNonFinite(_)
+DescNonFinite(d) ==
+  CASE d.k = "float" -> d.txt \in {txtNaN, txtPInf, txtNInf}
+    [] d.k = "ptr" -> d.nil = 0 /\ DescNonFinite(d.v)
+    [] d.k \in {"slice", "array"} -> \E x \in 1..Len(d.kids) : DescNonFinite(d.kids[x])
+    [] d.k = "map" -> \E x \in 1..Len(d.ents) : DescNonFinite(d.ents[x].v)
+    [] d.k = "struct" -> \E x \in 1..Len(d.fields) : DescNonFinite(d.fields[x].v)
+    [] OTHER -> FALSE
+=============================================================================
    Part 2.  Implementation-shaped model: showInJS / showInJSON (renderer.go), jsStringEscape
    (escapers.go), showTimeInJS, parseTagValue, isEmptyValue - transcribed branch by branch,
    AS FOUND.  NonFiniteFix = TRUE transcribes the proposed fix instead (see checks/c08.py).
@@ -576,7 +617,7 @@ Zeros(n) == IF n <= 0 THEN <<>> ELSE <<48>> \o Zeros(n - 1)
 \* strconv.FormatFloat(f, 'f', -1, bits) given the shortest digits (the descriptor's text)
 MFormatFloat(txt) ==
   IF txt \in {txtNaN, txtPInf, txtNInf} THEN txt
-  ELSE LET v == NumOfText(txt)  n == Len(v.s)  ds == [x \in 1..n |-> 48 + v.s[x]]  p == n + v.e
+  ELSE LET v == NumOfText(txt)  n == Len(v.s)  ds == Tup([x \in 1..n |-> 48 + v.s[x]])  p == n + v.e
            sign == IF txt[1] = 45 THEN <<45>> ELSE <<>> IN
        IF n = 0 THEN sign \o <<48>>
        ELSE IF v.e >= 0 THEN sign \o ds \o Zeros(v.e)
@@ -623,10 +664,19 @@ Model(d, L, fix) ==
     [] d.k \in {"slice", "array"} ->
          IF d.k = "slice" /\ d.nil = 1 THEN wNull
          ELSE IF Len(d.kids) = 0 THEN <<91, 93>>
-         ELSE <<91>> \o MJoin([x \in 1..Len(d.kids) |-> Model(d.kids[x], L, fix)], 1, <<44>>) \o <<93>>
+         ELSE <<91>> \o MJoin(Tup([x \in 1..Len(d.kids) |-> Model(d.kids[x], L, fix)]), 1, <<44>>) \o <<93>>
     [] d.k = "map" ->
          IF d.nil = 1 THEN wNull
-         ELSE LET ps == SortPairs([x \in 1..Len(d.ents) |-> <<d.ents[x].key, d.ents[x].v>>]) IN           \* sort.Slice by key string
-              <<123>> \o MJoin([x \in 1..Len(ps) |-> MQuoted(ps[x][1]) \o <<58>> \o Model(ps[x][2], L, fix)], 1, <<44>>) \o <<125>>
+         ELSE LET ps == SortPairs(Tup([x \in 1..Len(d.ents) |-> <<d.ents[x].key, d.ents[x].v>>])) IN           \* sort.Slice by key string
+              <<123>> \o MJoin(Tup([x \in 1..Len(ps) |-> MQuoted(ps[x][1]) \o <<58>> \o Model(ps[x][2], L, fix)]), 1, <<44>>) \o <<125>>
     [] d.k = "struct" -> <<123>> \o MFields(d.fields, 1, L, fix, TRUE) \o <<125>>
+\* does the descriptor contain a NaN or an infinity?
+RECURSIVE DescNonFinite(_)
+DescNonFinite(d) ==
+  CASE d.k = "float" -> d.txt \in {txtNaN, txtPInf, txtNInf}
+    [] d.k = "ptr" -> d.nil = 0 /\ DescNonFinite(d.v)
+    [] d.k \in {"slice", "array"} -> \E x \in 1..Len(d.kids) : DescNonFinite(d.kids[x])
+    [] d.k = "map" -> \E x \in 1..Len(d.ents) : DescNonFinite(d.ents[x].v)
+    [] d.k = "struct" -> \E x \in 1..Len(d.fields) : DescNonFinite(d.fields[x].v)
+    [] OTHER -> FALSE
 =============================================================================
